@@ -44,7 +44,19 @@ class BitcoinSolutionChecker(SegwitChecker, P2SChecker):
         must appear in the main script aligned to opcode boundaries for it
         to be removed.
         """
-        subscript = self.ScriptTools.compile_push_data_list([sig_blob])
+        # The interpreter searches for "CScript() << sig_blob": the push opcode is chosen
+        # by the length of the blob alone. (compile_push_data_list would turn the one-byte
+        # blobs 01..10 and 81 into OP_1..OP_16 / OP_1NEGATE, which must not be removed.)
+        size = len(sig_blob)
+        if size < 0x4C:
+            prefix = bytes([size])
+        elif size <= 0xFF:
+            prefix = bytes([0x4C, size])
+        elif size <= 0xFFFF:
+            prefix = b"\x4d" + size.to_bytes(2, "little")
+        else:
+            prefix = b"\x4e" + size.to_bytes(4, "little")
+        subscript = prefix + sig_blob
         new_script = bytearray()
         pc = 0
         for opcode, data, pc, new_pc in self.ScriptTools.get_opcodes(script):
